@@ -80,8 +80,12 @@ bool MPSInput::readLine()
       // Read until we have a non-empty, non-comment line.
       do
       {
-         if(!m_input.getline(m_buf, sizeof(m_buf)).good() && !m_input.eof())
-            return false;
+         if(!m_input.getline(m_buf, sizeof(m_buf)).good())
+         {
+            // a last line without newline sets eofbit but still delivers characters; stop when nothing more can be read
+            if(!m_input.eof() || m_input.gcount() == 0)
+               return false;
+         }
 
          m_lineno++;
 
